@@ -13,10 +13,13 @@ def sh(cmd, cwd, env=None, timeout=1800):
 
 def main():
     mid, src, crate, test = sys.argv[1:5]
-    feats, two = "", None
+    feats, two, pre, demo_cmd = "", None, None, None
     a = sys.argv[5:]
     while a:
-        if a[0] == "--features": feats = " --features " + a[1]; a = a[2:]
+        if a[0] == "--features": feats += " --features " + a[1]; a = a[2:]
+        elif a[0] == "--extra": feats += " " + a[1]; a = a[2:]
+        elif a[0] == "--pre": pre = a[1]; a = a[2:]
+        elif a[0] == "--demo-cmd": demo_cmd = a[1]; a = a[2:]
         elif a[0] == "--two-config": two = a[1].split("|"); a = a[2:]
         else: raise SystemExit("bad arg " + a[0])
     wt = "/tmp/sw/" + mid
@@ -35,7 +38,12 @@ def main():
         os.makedirs("%s/%s/tests" % (wt, crate), exist_ok=True)
         demo_dst = "%s/%s/tests/%s.rs" % (wt, crate, test)
         shutil.copy(src + "/demo.rs", demo_dst)
+        if pre:
+            rc, out = sh(pre, wt)
+            assert rc == 0, out
         def demo(tag):
+            if demo_cmd:
+                return sh(demo_cmd, wt, timeout=3600)
             if two:
                 rec = "/tmp/sw/%s.record.%s" % (mid, tag)
                 if os.path.exists(rec): os.remove(rec)
@@ -45,9 +53,9 @@ def main():
                 return (rc1 or rc2), (o1[-600:] + "\n---\n" + o2[-900:])
             return sh("cargo test --offline -p %s --test %s%s" % (crate, test, feats), wt)
         rc, out = demo("with")
-        res["demo_fails_with_change"] = rc != 0 and ("test result: FAILED" in out or "panicked" in out)
+        res["demo_fails_with_change"] = rc != 0 and ("test result: FAILED" in out or "panicked" in out or "error: test failed" in out)
         res["demo_with_change_tail"] = out.strip().splitlines()[-8:]
-        rc, out2 = sh("git apply -R %s/patch.diff" % src, wt)
+        rc, out2 = sh("git apply -R --include='rand_*/src/*' %s/patch.diff" % src, wt)
         assert rc == 0, out2
         rc, out = demo("without")
         res["demo_passes_without_change"] = rc == 0
